@@ -107,22 +107,25 @@ def p_pow(it):
     if it.peek()[0]=='|': it.next(); return ('frac',l,p_pow(it))
     return l
 def p_mul(it):
+    # juxtaposition only; `*` has the precedence of `/` (GNU units and rink's query language: 12 m / 2 * 3 = 18 m)
     terms=[p_pow(it)]
     while True:
         k=it.peek()[0]
-        if k in ('/','+','-',')','nl','eof'): break
-        if k=='*': it.next()
-        else: terms.append(p_pow(it))
+        if k in ('/','*','+','-',')','nl','eof'): break
+        terms.append(p_pow(it))
     return terms[0] if len(terms)==1 else ('mul',terms)
 def p_div(it):
     l=p_mul(it)
-    while it.peek()[0]=='/':
-        it.next(); l=('frac',l,p_mul(it))
+    while it.peek()[0] in ('/','*'):
+        k=it.next()[0]
+        l=('frac',l,p_mul(it)) if k=='/' else ('mul',[l,p_mul(it)])
     return l
 def p_add(it):
+    # left-associative: 10 m - 2 m - 3 m = 5 m
     l=p_div(it)
-    if it.peek()[0]=='+': it.next(); return ('add',l,p_add(it))
-    if it.peek()[0]=='-': it.next(); return ('sub',l,p_add(it))
+    while it.peek()[0] in ('+','-'):
+        k=it.next()[0]
+        l=('add',l,p_div(it)) if k=='+' else ('sub',l,p_div(it))
     return l
 p_expr=p_add
 def parse(text):
